@@ -1,6 +1,7 @@
 import Resgate.Proofs.Version
 import Resgate.Proofs.Pattern
 import Resgate.Proofs.Throttle
+import Resgate.Proofs.Collector
 
 /-
 C15 — Crash freedom and containment of malformed input.
@@ -36,5 +37,38 @@ theorem match_never_panics (p : Pattern) (s : Bytes) : (p.matches? s).isSome = t
 theorem throttle_panic_iff (t : Resgate.Throttle) (op : TOp) :
     t.step op = none ↔ op = .done ∧ t.running ≤ 0 :=
   Resgate.Throttle.step_none_iff t op
+
+/-- **The connection's collector cannot dereference a missing entry** (`wsConn.tryDelete` as repaired
+    by `fb6e752`; `pass1F` / `pass2F` are the traversals the model's `tryDeleteCore` runs). For every
+    connection state — any reference graph among the subscription objects, including disposed
+    objects that are still referenced and several objects for one resource id, which is what the
+    count defects D7/D9 leave behind — every root, every order of the ranges over the `refs` maps
+    in either traversal: once the first traversal has completed, its table is closed under
+    references and the second traversal finds an entry for every subscription it meets. The crash
+    P4 (nil dereference at `wsConnGC.go:73`, found by the thorough tier) is therefore excluded for
+    the repaired algorithm, not just for the histories that were run. -/
+theorem collector_never_meets_unregistered (ord ord2 : Nat) (sd : Int) (sent : Bool) (c : Gw.Conn) (root : Nat)
+    (e0 : String × Nat × Int × Int × Nat) (he0 : e0.2.1 = root) (hnd : ¬ Gw.Dir c root)
+    (fuel ctr fuel2 ctr2 state2 : Nat)
+    (hok : (Gw.pass1F ord sd fuel c root 1 [e0] ctr).2.2 = true) :
+    (Gw.pass2F ord2 sent fuel2 c root state2 (Gw.pass1F ord sd fuel c root 1 [e0] ctr).1 ctr2).2.2.2 = true :=
+  (Gw.collector_second_pass_total ord ord2 sd sent c root e0 he0 hnd fuel ctr fuel2 ctr2 state2 hok).2
+
+/-- Non-vacuity: a chain 1 → 2 → 3 → 4 → 5 in which objects 2 and 4 carry the same resource id (4 is
+    a leftover): the first traversal completes with fuel 6 and registers all five, the second meets
+    only registered ones. (Keyed by resource id, object 4 would have shared the entry of object 2
+    and object 5 would never have been registered.) -/
+def dupChain : Gw.Conn :=
+  { cid := 0, objs := [
+      (1, { uid := 1, rid := "m.a", name := "m.a", query := "", state := .sent, refs := [("m.b", 2, 1)] }),
+      (2, { uid := 2, rid := "m.b", name := "m.b", query := "", state := .sent, indirect := 1, refs := [("m.c", 3, 1)] }),
+      (3, { uid := 3, rid := "m.c", name := "m.c", query := "", state := .sent, indirect := 1, refs := [("m.b", 4, 1)] }),
+      (4, { uid := 4, rid := "m.b", name := "m.b", query := "", state := .disposed, indirect := 1, refs := [("m.d", 5, 1)] }),
+      (5, { uid := 5, rid := "m.d", name := "m.d", query := "", state := .sent, indirect := 1 })] }
+
+example : (Gw.pass1F 0 1 6 dupChain 1 1 [("m.a", 1, 0, 0, 2)] 0).2.2 = true ∧
+    (Gw.pass1F 0 1 6 dupChain 1 1 [("m.a", 1, 0, 0, 2)] 0).1.length = 5 ∧
+    (Gw.pass2F 0 true 6 dupChain 1 3 (Gw.pass1F 0 1 6 dupChain 1 1 [("m.a", 1, 0, 0, 2)] 0).1 0).2.2.2 = true := by
+  decide +kernel
 
 end Resgate.C15
